@@ -123,6 +123,7 @@ impl Adapter for MarlinA {
             "drop_shifted" => { if c.shifted_comm.is_none() { return None; } c.shifted_comm = None; b = None; }
             "drop_shifted_keep_bound" => { if c.shifted_comm.is_none() { return None; } c.shifted_comm = None; }
             "relabel_bound" => { if b.is_none() { return None; } b = Some(args[0].parse().unwrap()); }
+            "add_bound" => { if b.is_some() { return None; } b = Some(args[0].parse().unwrap()); }
             "swap_parts" => { match c.shifted_comm.clone() { Some(s) => { let t = c.comm.clone(); c.comm = s; c.shifted_comm = Some(t); } None => return None } }
             _ => return None,
         }
@@ -166,6 +167,7 @@ impl Adapter for SonicA {
         match kind {
             "relabel_bound" => { if b.is_none() { return None; } Some(LabeledCommitment::new(cm.label().clone(), cm.commitment().clone(), Some(args[0].parse().unwrap()))) }
             "drop_bound" => { if b.is_none() { return None; } Some(LabeledCommitment::new(cm.label().clone(), cm.commitment().clone(), None)) }
+            "add_bound" => { if b.is_some() { return None; } Some(LabeledCommitment::new(cm.label().clone(), cm.commitment().clone(), Some(args[0].parse().unwrap()))) }
             _ => None,
         }
     }
@@ -182,6 +184,7 @@ impl Adapter for IpaA {
         match kind {
             "drop_shifted" => { if c.shifted_comm.is_none() { return None; } c.shifted_comm = None; b = None; }
             "relabel_bound" => { if b.is_none() { return None; } b = Some(args[0].parse().unwrap()); }
+            "add_bound" => { if b.is_some() { return None; } b = Some(args[0].parse().unwrap()); }
             _ => return None,
         }
         Some(LabeledCommitment::new(cm.label().clone(), c, b))
